@@ -261,9 +261,12 @@ def index_carriers(ctx, sp):
     if space not in (ALL, EN):
         raise A.AnchorLost(f"{rel}::parse_fields_impl", f"cannot type the enumerated collection `{A.render(e)}`")
     body = A.fn_text(fn)
+    from . import errsel as ES
+
+    tags = ES.role_tags(ctx)
     for fld in ("source", "backtrace"):
         # `let <sel> = parse_field_impl(.., iter.clone(), "<fld>", ..)?;  if let Some((index,_,_)) = <sel> { parsed.<fld> = Some(index) }`
-        m = A.wsearch(body, 'let sel=parse_field_impl(&pred,state.fields.len(),iter.clone(),"%s",' % fld)
+        m = A.wsearch(body, "let sel=parse_field_impl(&pred,state.fields.len(),iter.clone(),%s," % tags[fld])
         sel = m.group("v_sel") if m else None
         if sel and A.wsearch(body, "if let Some((index,_,_))=%s{parsed.%s=Some(index)}" % (sel, fld)):
             carriers[("ParsedFields", fld)] = space
@@ -288,7 +291,7 @@ def index_carriers(ctx, sp):
                     arg = call["args"][stored[fld]]
                     b = TY.resolve(fn, A.render(arg), A.span_of(arg)[0]) if A.kind(arg) == "Expr::Path" else None
                     init = A.render(b["init"]) if b and b.get("init") is not None else ""
-                    if A.wsearch(init, 'parse_field_impl(&pred,state.fields.len(),iter.clone(),"%s",' % fld) and re.search(r"\)\?\.map\(\|\((\w+),_,_\)\|\1\)$", init):
+                    if A.wsearch(init, "parse_field_impl(&pred,state.fields.len(),iter.clone(),%s," % tags[fld]) and re.search(r"\)\?\.map\(\|\((\w+),_,_\)\|\1\)$", init):
                         carriers[("ParsedFields", fld)] = space
     if len(carriers) != 2:
         raise A.AnchorLost(f"{rel}::parse_fields_impl", "assignments of source/backtrace from the enumerate index")
